@@ -65,7 +65,13 @@ def run(prop, tier, seed, replay=None):
         items = [({k: r["case"][k] for k in ("segs", "lead", "enc", "norm")}, r["case"]["method"])]
     elif not quick:
         rng.shuffle(items)
-        items = items[:9000]
+        items = items[:14000]
+    else:
+        # quick: every target that leaves the plain grammar stays; of the plain-encoded ones
+        # without an outside / sibling / directory segment a seeded half
+        def special(c):
+            return c["enc"] != "plain" or any(x in ("ABS", "OUT", "SIB", "DIR", "..") for x in c["segs"])
+        items = [(c, m) for (c, m) in items if special(c) or rng.random() < 0.5]
     rng.shuffle(items)
     jobs = []
     nw = 15
